@@ -180,6 +180,10 @@ func SharedEngine() *promql.Engine {
 type EngineBackend struct {
 	DB  *DB
 	Now func() time.Time
+	// Hold: an instant query with exactly this text is not answered until ReleaseHold is called (a slow query that
+	// keeps a worker of the client busy).
+	Hold   string
+	holdCh chan struct{}
 
 	mu  sync.Mutex
 	log []EngineReq
@@ -194,7 +198,20 @@ type EngineReq struct {
 	StepMs   int64
 }
 
-func NewEngineBackend(db *DB) *EngineBackend { return &EngineBackend{DB: db} }
+func NewEngineBackend(db *DB) *EngineBackend {
+	return &EngineBackend{DB: db, holdCh: make(chan struct{})}
+}
+
+// ReleaseHold lets the held query (and any later one with the same text) be answered.
+func (b *EngineBackend) ReleaseHold() {
+	b.mu.Lock()
+	select {
+	case <-b.holdCh:
+	default:
+		close(b.holdCh)
+	}
+	b.mu.Unlock()
+}
 
 func (b *EngineBackend) Requests() []EngineReq {
 	b.mu.Lock()
@@ -290,6 +307,16 @@ func (b *EngineBackend) ServeQuery(w http.ResponseWriter, r *http.Request) {
 	if _, err := parser.ParseExpr(q); err != nil {
 		WriteError(w, 400, "bad_data", err.Error())
 		return
+	}
+	if b.Hold != "" && q == b.Hold {
+		select {
+		case <-b.holdCh:
+		case <-r.Context().Done():
+			return
+		}
+		if r.Form.Get("time") == "" {
+			ts = b.now()
+		}
 	}
 	qry, err := SharedEngine().NewInstantQuery(r.Context(), b.DB, nil, q, ts)
 	if err != nil {
